@@ -1,9 +1,13 @@
 package drivers
 
 import (
+	"io"
+	"syscall"
+
 	"encoding/json"
 	"errors"
 	"fmt"
+	lerrors "github.com/syndtr/goleveldb/leveldb/errors"
 	"os"
 	"os/exec"
 	"path/filepath"
@@ -183,7 +187,7 @@ func RunC09(tier string, args []string) int {
 	}
 	chk := fw.NewCheck("C09", tier, "model_checking")
 	chk.Assumptions = []string{
-		"fault model: one storage fault per lookup - database handle closed, injected read error at Db.Get, stored record replaced (empty, 1 byte, truncated at every byte, tag flipped, other type), on both backends where the fault exists; plus all interleavings of a handshake with Cleanup and with a refresh whose directory swap fails",
+		"fault model: one storage fault per lookup - database handle closed, injected read error at Db.Get (generic I/O error, table file vanished = ENOENT, corrupted block, short read, EACCES), stored record replaced (empty, 1 byte, truncated at every byte, tag flipped, other type), on both backends where the fault exists; plus all interleavings of a handshake with Cleanup and with a refresh whose directory swap fails",
 		"a lookup that starts after Cleanup returned is outside the validator's life cycle and is not judged",
 	}
 	c := newC08Cast()
@@ -304,16 +308,29 @@ func RunC09(tier string, args []string) int {
 						}
 						return func() {}
 					}, listedProbe, extras)
-					run(disk, "get-io-error", func(w *CW) func() {
-						vsched.EffectHook = func(kind, arg string) error {
-							if kind == "ldb.get" && strings.Contains(arg, idA) {
-								c09Hit = true
-								return errors.New("injected: input/output error")
+					// the classes of error a read of the database can end with (a missing KEY is none of them)
+					for _, ioe := range []struct {
+						name string
+						err  error
+					}{
+						{"get-io-error", errors.New("injected: input/output error")},
+						{"get-table-file-vanished", &os.PathError{Op: "open", Path: "000002.ldb", Err: syscall.ENOENT}},
+						{"get-block-checksum", &lerrors.ErrCorrupted{Err: errors.New("injected: checksum mismatch")}},
+						{"get-short-read", io.ErrUnexpectedEOF},
+						{"get-permission", &os.PathError{Op: "open", Path: "000002.ldb", Err: syscall.EACCES}},
+					} {
+						ioe := ioe
+						run(disk, ioe.name, func(w *CW) func() {
+							vsched.EffectHook = func(kind, arg string) error {
+								if kind == "ldb.get" && strings.Contains(arg, idA) {
+									c09Hit = true
+									return ioe.err
+								}
+								return nil
 							}
-							return nil
-						}
-						return func() { vsched.EffectHook = nil }
-					}, listedProbe, extras)
+							return func() { vsched.EffectHook = nil }
+						}, listedProbe, extras)
+					}
 				}
 			}
 			// record corruptions (only the listed certificate has a record)
